@@ -20,7 +20,7 @@ func init() {
 			if tier == "quick" {
 				return 8000
 			}
-			return 200000
+			return 600000
 		},
 		Rule:        "monitor at the Persist boundary: every Store(name, bytes) issued by hostile histories (as C01; each case also rebuilds its final contents by a second, different route - permuted inserts / superset-then-delete / empty-and-rebuild, other cache mode, after reload - so the same logical nodes are produced twice) is checked: name = unpadded base64url(BLAKE2b-256(bytes)) with an independent RFC 7693 implementation; one name never with two byte strings; two Stores whose decoded (format, entries, child names) agree must carry identical bytes (tables are process-wide across cases); a root name never stands for two different contents; non-trivial = distinct stored node bytes with >= 1 key and >= 1 child",
 		Assumptions: []string{"nodes are decoded with the independent decoder; a Store whose bytes it cannot decode is counted (undecodable) and only the hash/name clauses are applied to it"},
@@ -59,6 +59,7 @@ func c08Hook(c *fw.C, e *kinds.Env) {
 	f := e.Format
 	e.Store.OnStore = func(name string, b []byte) {
 		c.Obs("store_events", 1)
+		c.Distinct("node_names_stored", fw.StrHash(name))
 		want := ref.Name(b)
 		if name != want {
 			c.Violation("C08.name_is_hash_of_bytes", map[string]string{"format": string(f)}, "Store(%q, %d bytes): unpadded base64url BLAKE2b-256 of the bytes is %q | cfg{%s}", name, len(b), want, e.Cfg)
